@@ -52,10 +52,10 @@ def exact_cases(tier, seed):
             S = kc.make_sys(r, n, sym, pkind)
             side = kc.side_for(r, solver)
             K = (3 if heavy else 5) if tier == "quick" else ((4 if heavy else n + 2))
-            M = r.choice([1, 2, 4]); L = r.choice([1, 2, 4]) if not heavy or solver != "bicgstabl" else r.choice([1, 2])
+            M = r.choice([1, 2, 4]); L = r.choice([1, 2, 4]) if not heavy or solver != "bicgstabl" else r.choice([1, 2, 2, 3])
             base = dict(M=M, L=L, K=r.choice([0, 1, 2]), s=r.choice([1, 2, 3]), damping=r.choice([F(1), F(1, 2), F(3, 4)]),
                         smoothing=int(r.random() < 0.3), replacement=int(r.random() < 0.3), convex=int(r.random() < 0.7),
-                        ca=int(r.random() < 0.3))
+                        ca=int(r.random() < 0.3), delta=r.choice([F(0), F(0), F(1, 100), F(1, 2)]))
             for k in range(0, K + 1):
                 tol = r.choice([F(0), TOL10])
                 abstol = r.choice([kc.ABSTOL_MIN, kc.ABSTOL_MIN, F(0) if solver in kc.SQRT_FREE else kc.ABSTOL_MIN])
